@@ -687,3 +687,119 @@ func c05R5(c *Ctx, r *Report) {
 	r.Check(mkUnreach, rule, fin.Name(), "emits mir.Unreachable", c.pos(fin.Decl.Pos()), "an unterminated block at the end of a function is no longer closed with Unreachable")
 	_ = mkRetNoValue
 }
+
+func init() {
+	lateInits = append(lateInits, func() {
+		props["C05"].Quick = append(props["C05"].Quick, c05R6)
+		props["C01"].Quick = append(props["C01"].Quick, c05R6)
+	})
+}
+
+// C05.R6: in the lowering of `match`, the continuation block is only the target of arm exits; the
+// "no pattern matched" edge goes through the default-block variable (which is the default arm when there is one).
+func c05R6(c *Ctx, r *Report) {
+	const rule = "C05.R6"
+	r.Describe(rule, "mir/gen lowerMatch: the continuation block is used only as the exit of an arm (branchIfNoTerm/setBlock); every no-match edge (CondBr.Else, Switch.Default) uses the default-block variable, also through helper parameters")
+	lm := c.LookupFn(pkgMIRGen, "(*functionBuilder).lowerMatch")
+	setBlock := c.LookupFn(pkgMIRGen, "(*functionBuilder).setBlock")
+	brNoTerm := c.LookupFn(pkgMIRGen, "(*functionBuilder).branchIfNoTerm")
+	if !r.Anchor(rule, lm != nil && setBlock != nil && brNoTerm != nil, "mir/gen lowerMatch / setBlock / branchIfNoTerm") {
+		return
+	}
+	info := lm.Info()
+	// continuation block M: argument of the last setBlock call of the function
+	var merge types.Object
+	for _, call := range callsIn(lm.Decl.Body, false) {
+		if isCallTo(info, call, setBlock.Obj) && len(call.Args) == 1 {
+			if o := objOf(info, call.Args[0]); o != nil {
+				merge = o
+			}
+		}
+	}
+	if !r.Anchor(rule, merge != nil, "lowerMatch: continuation block (last setBlock argument)") {
+		return
+	}
+	// default-block variable D: defined as `D := M`
+	var def types.Object
+	ast.Inspect(lm.Decl.Body, func(x ast.Node) bool {
+		if as, ok := x.(*ast.AssignStmt); ok && as.Tok == token.DEFINE && len(as.Lhs) == 1 && len(as.Rhs) == 1 && objOf(info, as.Rhs[0]) == merge {
+			def = info.Defs[as.Lhs[0].(*ast.Ident)]
+		}
+		return true
+	})
+	r.Check(def != nil, rule, lm.Name(), "default-block variable initialised with the continuation block", c.pos(lm.Decl.Pos()), "there is no variable that stands for 'where control goes when no pattern matches'")
+	// role of a block-id parameter inside a helper: "exit" when only passed to branchIfNoTerm/Br; "nomatch" when it reaches a CondBr.Else / Switch.Default
+	seenLocal := map[string]bool{}
+	var noMatchUse func(fn *Fn, v types.Object, depth int) (bool, string)
+	noMatchUse = func(fn *Fn, v types.Object, depth int) (bool, string) {
+		finfo := fn.Info()
+		bad, why := false, ""
+		walkWithStack(fn.Decl.Body, func(n ast.Node, stack []ast.Node) bool {
+			id, ok := n.(*ast.Ident)
+			if !ok || finfo.Uses[id] != v {
+				return true
+			}
+			// find the nearest enclosing KeyValueExpr / CallExpr
+			for i := len(stack) - 1; i >= 0; i-- {
+				switch p := stack[i].(type) {
+				case *ast.KeyValueExpr:
+					k := exprStr(p.Key)
+					if k == "Else" || k == "Default" || k == "Then" {
+						bad, why = true, fn.Name()+": "+k+": "+exprStr(p.Value)
+					}
+					return true
+				case *ast.CallExpr:
+					f := callee(finfo, p)
+					if f == nil || f == setBlock.Obj || f == brNoTerm.Obj {
+						return true
+					}
+					if hf := c.FnOf(f); hf != nil && depth < 2 {
+						sig := f.Type().(*types.Signature)
+						for ai, a := range p.Args {
+							if mentionsVar(finfo, a, v) && ai < sig.Params().Len() {
+								if b2, w2 := noMatchUse(hf, sig.Params().At(ai), depth+1); b2 {
+									bad, why = true, w2
+								}
+							}
+						}
+					}
+					return true
+				case *ast.AssignStmt:
+					// copied into a local: follow the local
+					if len(p.Lhs) == 1 && len(p.Rhs) == 1 && mentionsVar(finfo, p.Rhs[0], v) {
+						if lid, ok := p.Lhs[0].(*ast.Ident); ok {
+							lo := finfo.Defs[lid]
+							if lo == nil {
+								lo = finfo.Uses[lid]
+							}
+							key := fn.Name() + "/" + lid.Name
+							if lo != nil && lo != v && lo != def && !seenLocal[key] {
+								seenLocal[key] = true
+								if b2, w2 := noMatchUse(fn, lo, depth); b2 {
+									bad, why = true, w2
+								}
+							}
+						}
+					}
+					return true
+				}
+			}
+			return true
+		})
+		return bad, why
+	}
+	bad, why := noMatchUse(lm, merge, 0)
+	r.Check(!bad, rule, lm.Name(), "continuation block never used as a no-match target", c.pos(lm.Decl.Pos()),
+		"the continuation block of the match is used as the target of a 'no pattern matched' edge ("+why+"): with a default arm present, a value that matches no pattern skips the default arm (and a function whose only return is there falls off its end)")
+	// the default-block variable is what no-match edges use: it must occur in a Switch.Default and in a CondBr.Else position (directly or through a helper)
+	if def != nil {
+		uses := 0
+		ast.Inspect(lm.Decl.Body, func(x ast.Node) bool {
+			if id, ok := x.(*ast.Ident); ok && info.Uses[id] == def {
+				uses++
+			}
+			return true
+		})
+		r.Check(uses >= 3, rule, lm.Name(), "default-block variable feeds the no-match edges", c.pos(lm.Decl.Pos()), fmt.Sprintf("the default-block variable is used %d time(s): the switch default and the end of the comparison chain no longer both go through it", uses))
+	}
+}
